@@ -279,6 +279,12 @@ fn main() {
         }
         // model: the never-parallel observation, and every observation that differs from it textually
         for (ci, o) in variants {
+            // very large results make the shard's term too deep for coqc's stack: those cases keep the
+            // cross-configuration comparison only
+            if matches!(o, Obs::Rows(r) if r.len() > 250) {
+                sum.count("model:skipped-result-over-250-rows");
+                continue;
+            }
             per_db.entry(c.k).or_default().push(format!("({}, {}, {})", c.id + 1_000_000 * ci as u64, coq_query(&c.q), coq_obs(o)));
             sum.model_cases += 1;
             if ci > 0 {
@@ -300,7 +306,11 @@ fn main() {
     if args.only.is_none() {
         for (k, cs) in &per_db {
             let s = k % nshards;
-            shards[s].push_str(&format!("Definition db{} : db := {}.\nDefinition cs{} : list (Z * query * obs) := [\n{}].\n", k, coq_db(&dbs[*k]), k, cs.join(";\n")));
+            shards[s].push_str(&format!("Definition db{} : db := {}.\n", k, coq_db(&dbs[*k])));
+            for (i, c) in cs.iter().enumerate() {
+                shards[s].push_str(&format!("Definition c{}_{} : Z * query * obs := {}.\n", k, i, c));
+            }
+            shards[s].push_str(&format!("Definition cs{} : list (Z * query * obs) := [{}].\n", k, (0..cs.len()).map(|i| format!("c{}_{}", k, i)).collect::<Vec<_>>().join("; ")));
             shard_lists[s].push(format!("(db{}, cs{})", k, k));
         }
         for s in 0..nshards {
